@@ -313,6 +313,63 @@ Definition profile_value (custom : option (list (key * sval))) (dflt : list (key
   | _ => match setting_key s with Some k => getter custom dflt k | None => None end
   end.
 
+(* ---- the documented profile-level rule (specification side): "otherwise the selected profile's
+   value, otherwise the default profile's value" -- read for every key, junit.path included.
+   Priority and test-group have no profile-level key: their fixed defaults. ---- *)
+
+Definition sel_then_default (custom : option (list (key * sval))) (dflt : list (key * sval))
+           (k : key) : option sval :=
+  match custom with
+  | Some c => match lookup k c with Some v => Some v | None => lookup k dflt end
+  | None => lookup k dflt
+  end.
+
+Definition junit_leaf (custom : option (list (key * sval))) (dflt : list (key * sval))
+           (sk : key) : option atom :=
+  match custom with
+  | Some c => match sub (lookup k_junit c) sk with
+              | Some a => Some a
+              | None => sub (lookup k_junit dflt) sk
+              end
+  | None => sub (lookup k_junit dflt) sk
+  end.
+
+(* JUnit output is written iff a path is configured; nothing is stored without a report *)
+Definition documented_junit_store (custom : option (list (key * sval))) (dflt : list (key * sval))
+           (sk : key) : option sval :=
+  match junit_leaf custom dflt k_path with
+  | Some _ => match junit_leaf custom dflt sk with Some a => Some (VLeaf a) | None => None end
+  | None => Some (VLeaf a_false)
+  end.
+
+Definition documented_profile_value (custom : option (list (key * sval))) (dflt : list (key * sval))
+           (s : setting) : option sval :=
+  match s with
+  | SPriority => Some (VLeaf a_zero)
+  | STestGroup => Some (VLeaf a_global)
+  | SThreads => sel_then_default custom dflt k_threads
+  | SExtraArgs => sel_then_default custom dflt k_extra_args
+  | SRetries => sel_then_default custom dflt k_retries
+  | SSlowTimeout => sel_then_default custom dflt k_slow_timeout
+  | SLeakTimeout => sel_then_default custom dflt k_leak_timeout
+  | SSuccessOutput => sel_then_default custom dflt k_success_output
+  | SFailureOutput => sel_then_default custom dflt k_failure_output
+  | SJunitSuccess => documented_junit_store custom dflt k_store_success
+  | SJunitFailure => documented_junit_store custom dflt k_store_failure
+  end.
+
+Definition is_junit_setting (s : setting) : bool :=
+  match s with SJunitSuccess | SJunitFailure => true | _ => false end.
+
+(* F22 class: a custom profile is selected, it has no junit.path of its own, the default profile
+   has one (JunitConfig::new takes the path from the custom profile alone) *)
+Definition known_f22 (custom : option (list (key * sval))) (dflt : list (key * sval)) : bool :=
+  match custom with
+  | Some c => negb (is_some (sub (lookup k_junit c) k_path))
+              && is_some (sub (lookup k_junit dflt) k_path)
+  | None => false
+  end.
+
 (* ---- EvaluatableProfile::settings_for ---- *)
 
 Definition compiled_for (e : env) (bp : bplat) (repo : file) (tools : list file) (sel : key)
